@@ -1046,6 +1046,16 @@ impl<'a> World<'a> {
             None => return,
         };
         monitors::probe_attempt(self, "coord", &psbt);
+        // the plan/complete gap: re-plan with the current adverts and clock at every attempt
+        if self.mon.on("C17") || self.mon.on("C01") {
+            let units = self.dec.choose(&format!("planunits:{}", self.stats.attempts), 2) == 1;
+            for i in 0..self.env.inputs.len() {
+                if !self.env.inputs[i].foreign {
+                    let assets = self.assets_for(i, units);
+                    monitors::probe_plan(self, i, &assets);
+                }
+            }
+        }
         let v = self.dec.choose(&format!("cfin:{}", self.stats.attempts), 6);
         let all_final = monitors::finalize_with_monitors(self, "coord", &mut psbt, v);
         // persist after finalisation steps (crash points fall between inputs via per-input variants)
